@@ -11,7 +11,7 @@ import pipefunc.cache as C
 
 WHY = L.WHY
 OUTSIDE = (
-    "NumPy arrays, pandas objects, arbitrary picklables (cloudpickle + md5 has no symbolic encoding), equality of keys across "
+    "NumPy arrays beyond 2x2 int arrays, pandas objects, arbitrary picklables (cloudpickle + md5 has no symbolic encoding), equality of keys across "
     "interpreters with different hash seeds, values that embed the conversion marker itself"
 )
 ASSUMPTIONS = [
@@ -50,13 +50,14 @@ STRUCT = {
     "LBA": (2, 2, lambda a, b: [bytearray([a]), b]),
 }
 ORDER = list(STRUCT)
+NEG_OK = {"S2", "LS"}  # set members also range over negative ints (hash(-1) == hash(-2))
 
 
 def _build(name, leaves):
     n, nsmall, f = STRUCT[name]
     vals = list(leaves[:n])
     for i in range(nsmall):
-        vals[i] = L.concretize(vals[i], 0, 2)
+        vals[i] = L.concretize(vals[i], -2, 2) if name in NEG_OK else L.concretize(vals[i], 0, 2)
     return f(*vals)
 
 
@@ -144,6 +145,37 @@ def dict_order(k1, k2, a, b, kind):
     return True
 
 
+def np_pair(a0, a1, a2, a3, b0, b1, b2, b3, va, vb, dt):
+    """small int NumPy arrays: equal key iff same shape, dtype and content - whatever the memory layout"""
+    L.reset()
+    import numpy as np
+
+    vals = [L.concretize(x, 0, 1) for x in (a0, a1, a2, a3)]
+    # the second array holds the same elements, or the transposed ones (b0 selects)
+    vals = vals + (vals if not b0 else [vals[0], vals[2], vals[1], vals[3]])
+    va, vb, dt = L.concretize(va, 0, 3), L.concretize(vb, 0, 3), L.concretize(dt, 0, 1)
+
+    def mk(v, variant, dtype):
+        a = np.array([[v[0], v[1]], [v[2], v[3]]], dtype=dtype)
+        if variant == 1:
+            return a.T  # a view with other strides
+        if variant == 2:
+            return np.asfortranarray(a)
+        if variant == 3:
+            return a.reshape(4)
+        return a
+
+    x = mk(vals[:4], va, np.int64)
+    y = mk(vals[4:], vb, np.int64 if dt == 0 else np.int32)
+    kx, ky = C.to_hashable(x, False), C.to_hashable(y, False)
+    hash(kx)
+    hash(ky)
+    same = x.shape == y.shape and x.dtype == y.dtype and bool((x == y).all())
+    if same != (kx == ky):
+        return fail("NumPy arrays: equal key without equal value (or the converse)")
+    return True
+
+
 def mixed_keys(a, b):
     """a dict whose keys are of different types still gets a key"""
     L.reset()
@@ -208,7 +240,7 @@ def obligations(tier):
 
     def small_pre(sname, prefix):
         n, nsmall, _ = STRUCT[sname]
-        pre = [SM.format(f"{prefix}{i}") for i in range(nsmall)]
+        pre = [(SM if sname not in NEG_OK else "-2 <= {0} <= 2").format(f"{prefix}{i}") for i in range(nsmall)]
         pre += [f"{prefix}{i} == 0" for i in range(n, 4)]
         return pre
 
@@ -241,6 +273,17 @@ def obligations(tier):
             "H.dict_order(k1, k2, a, b, kind)",
             flags=("hashstub",),
             bounds="two keys in 0..2 in both insertion orders; dict, defaultdict, Counter, OrderedDict, set",
+        )
+    )
+    obs.append(
+        Ob(
+            "np_pair",
+            [(f"a{i}", I) for i in range(4)] + [(f"b{i}", I) for i in range(4)] + [("va", I), ("vb", I), ("dt", I)],
+            [" and ".join(f"0 <= a{i} <= 1" for i in range(4)) + " and 0 <= b0 <= 1 and b1 == 0 and b2 == 0 and b3 == 0", "0 <= va <= 3 and 0 <= vb <= 3 and 0 <= dt <= 1"],
+            "H.np_pair(a0, a1, a2, a3, b0, b1, b2, b3, va, vb, dt)",
+            timeout=400,
+            flags=("hashstub",),
+            bounds="2x2 int arrays with elements 0..1 (realised), as C-ordered array, transpose view, Fortran copy or flattened; int64 vs int32",
         )
     )
     obs.append(Ob("mixed_keys", [("a", I), ("b", I)], [], "H.mixed_keys(a, b)", flags=("hashstub",), bounds="{'': a, 0: b} (region of known finding F14)"))
